@@ -185,7 +185,8 @@ fn parse_number_internal(input: &str, default_radix: u32) -> Result<SimpleNumber
                 // only the leading zeros mark the radix form; trailing zeros belong to the radix (010, 020, 030)
                 let trimmed = part.trim_start_matches('0');
                 match u32::from_str(trimmed) {
-                    Err(_) => Err(DataError::from(format!("Could not parse radix from {:?}", part)))?,
+                    // not a radix prefix (0.5_5, 0_5): the underscore is a visual separator
+                    Err(_) => (default_radix, input),
                     Ok(v) => {
                         if v < 2 || v > 36 {
                             // limit of Rust from_str_radix function below
